@@ -63,18 +63,28 @@ def theorem_domain(rep, model, modules):
     IMPLEMENTATION is run on those printed texts: the functions of every generated module that fall in the domain are
     printed by the model (one file per module) and Module.parseString must return exactly them."""
     shown = 0
+
+    def prune(decls, depth=0):
+        """the sub-tree made of the functions the model accepts and of the namespaces around them"""
+        out = []
+        for d in decls:
+            if d[0] == 'fun':
+                a = model.ask('printdecls', [d])
+                if a.startswith('ok '):
+                    out.append(d)
+                    rep.bump('theorem_domain_functions_inside')
+                elif a == 'outside':
+                    rep.bump('theorem_domain_functions_outside')
+                else:
+                    raise RuntimeError('printdecls: ' + a[:200])
+            elif d[0] == 'ns':
+                out.append(['ns', d[1], prune(d[2], depth + 1)])
+                rep.bump('theorem_domain_namespaces')
+                rep.coverage['theorem_domain_max_nesting'] = max(rep.coverage.get('theorem_domain_max_nesting', 0), depth + 1)
+        return out
+
     for decls in modules:
-        funs = functions_of(decls)
-        inside = []
-        for f in funs:
-            a = model.ask('printdecls', [f])
-            if a.startswith('ok '):
-                inside.append(f)
-                rep.bump('theorem_domain_functions_inside')
-            elif a == 'outside':
-                rep.bump('theorem_domain_functions_outside')
-            else:
-                raise RuntimeError('printdecls: ' + a[:200])
+        inside = prune(decls)
         if not inside:
             continue
         a = model.ask('printdecls', inside)
@@ -167,7 +177,12 @@ def run(rep, tier, seed, replay=None, proof_ok=True):
                 g = G.Gen(r, G.Profile(p_template=0.0, p_default=0.0, p_keyword_name=0.05, max_args=1 + k % 7,
                                        max_type_depth=1 + k % 8, special_types=(k % 3 == 0)))
                 used = set()
-                gen_modules.append([G.a_decl(g.function(used)) for _ in range(1 + r.randrange(12))])
+                fl = [G.a_decl(g.function(used)) for _ in range(1 + r.randrange(12))]
+                # wrap runs of them into namespaces nested up to 12 deep
+                for lvl in range(k % 13):
+                    cut = r.randrange(len(fl) + 1)
+                    fl = fl[:cut // 2] + [['ns', 'n%d_%d' % (k, lvl), fl[cut // 2:cut]]] + fl[cut:]
+                gen_modules.append(fl)
             theorem_domain(rep, model, gen_modules)
         # recorded defects: still present?
         for fid, text, pred, what in WITNESSES:
